@@ -17,14 +17,14 @@ import (
 
 type C12Scenario struct {
 	ScenarioBase
-	Transport string              `json:"transport"`
-	Regex     string              `json:"regex"`
-	Invert    bool                `json:"invert"`
-	Before    int                 `json:"before"`
-	After     int                 `json:"after"`
-	Max       int                 `json:"max"`
-	Plain     bool                `json:"plain"`
-	Quiet     bool                `json:"quiet"`
+	Transport string `json:"transport"`
+	Regex     string `json:"regex"`
+	Invert    bool   `json:"invert"`
+	Before    int    `json:"before"`
+	After     int    `json:"after"`
+	Max       int    `json:"max"`
+	Plain     bool   `json:"plain"`
+	Quiet     bool   `json:"quiet"`
 	// NFiles > 1 (non-plain mode only): the same corpus under several names, given
 	// as a comma-separated list; each file's lines are attributed by source id
 	NFiles int                 `json:"nfiles,omitempty"`
